@@ -84,6 +84,33 @@ def small_families():
     return fam
 
 
+def failing_families():
+    a5, a3t, a1 = (b"a", 5, b"x"), (b"a", 3, None), (b"a", 1, b"z")
+    b4, b2t = (b"b", 4, b"y"), (b"b", 2, None)
+    c9 = (b"c", 9, b"w")
+    T = lambda es: ("T", list(es))
+    return [
+        ("M", [T([a5, a1, c9]), T([a3t, b4, b2t])]),
+        ("C", [T([a5, a3t]), T([]), T([a1, b4, b2t, c9])]),
+        ("B", ("I", b"a"), ("X", b"c"), T([a5, a3t, a1, b4, b2t, c9])),
+        ("P", 4, T([a5, a3t, a1, b4, b2t, c9])),
+        ("L", [a5, b4, c9]),
+        ("P", 4, ("B", ("I", b"a"), ("X", b"c"), ("M", [("C", [T([a5]), T([a3t, b4])]), T([a1, b2t, c9])]))),
+    ]
+
+
+def load_fcorpus():
+    d = os.path.join(vlib.VERIF, "corpus", "C11")
+    out = []
+    if os.path.isdir(d):
+        for fn in sorted(os.listdir(d)):
+            if fn.endswith(".fjson"):
+                with open(os.path.join(d, fn)) as fh:
+                    c = json.load(fh)
+                out.append((c["case"], G.parse_expr(c["case"].split("|")[0].split()), G.parse_prog(c["case"].split("|")[1].split()), "corpus:" + fn))
+    return out
+
+
 def all_programs(maxlen):
     ops = ["F", "E", "N", "V", ("S", b"a"), ("S", b"b"), ("S", b"bb")]
     progs = [[]]
@@ -135,12 +162,67 @@ def run_batch(chk, hxbin, mx, cases, tally, tag):
             tally.model_spec_bad.append(rec)
 
 
+def run_fbatch(chk, hxf, mxf, fcases, ft):
+    """cases with failing leaves: implementation (c11f) vs fallible model (mx_fcursor), exactly, at every
+    position incl. after errors; and both vs the specification of a run with errors"""
+    if not fcases:
+        return
+    rc1, impl_out = run_lines(hxf, [c[0] for c in fcases], chk.work, "fimpl")
+    rc2, model_out = run_lines(mxf, [c[0] for c in fcases], chk.work, "fmodel")
+    if len(impl_out) != len(fcases) or len(model_out) != len(fcases):
+        raise RuntimeError("fallible: output line count mismatch impl=%d model=%d cases=%d\n%s" % (
+            len(impl_out), len(model_out), len(fcases), "\n".join(model_out[-3:])))
+    for (line, x, prog, tag), io, mo in zip(fcases, impl_out, model_out):
+        mm, _, ms = mo.partition(" # ")
+        ft["n"] += 1
+        unhealthy = "UNHEALTHY" in mm
+        if unhealthy:
+            # the model entered its own failure state (only possible while dirty): it claims nothing
+            # from there on; compare the prefix only
+            ft["unhealthy"] += 1
+            mm = mm.replace(" UNHEALTHY", "").strip()
+            io_cmp = " ".join(io.split()[:len(mm.split())])
+            # ... and that may only happen while dirty (after an Err, before a successful absolute call)
+            dirty = False
+            for o, t in list(zip(prog, io.split()[1:]))[:max(0, len(mm.split()))]:
+                if t == "ERR":
+                    dirty = True
+                elif o not in ("N", "V"):
+                    dirty = False
+            if not dirty:
+                ft["corr_bad"].append({"tag": tag, "case": line, "what": "model unhealthy in a clean state", "impl_out": io, "model_out": mm})
+        else:
+            io_cmp = io
+        toks = io.split()
+        nerr = toks.count("ERR")
+        ft["errs"] += nerr
+        ft["with_err"] += (nerr > 0)
+        if nerr and any(t != "ERR" for t in toks[toks.index("ERR"):]):
+            ft["continued_after_err"] += 1
+        verdict, known = G.ref_run_errors(G.spec(x), prog, toks)
+        rec = {"tag": tag, "case": line, "impl_out": io, "model_out": mm, "verdict": verdict}
+        if verdict is not None:
+            ft["prop_bad"].append(rec)
+        elif io_cmp != mm:
+            ft["corr_bad"].append(rec)
+        if known:
+            ft["known"] += 1
+            if ft["known_example"] is None or len(line) < len(ft["known_example"]["case"]):
+                ft["known_example"] = rec
+        if nerr and verdict is None:
+            ft["recovered"] += sum(1 for o, t in zip(prog, toks[1:]) if t != "ERR" and o not in ("N", "V"))
+
+
 def run(chk):
     ok_proof, info = vlib.proof_stage(chk, PROPS, MODULE, const_areas=("Cursor",), pins_rel="pins/C11.v")
 
     okx, outx = vlib.coq_make(["theories/Cursor/Extract.vo"])
     okm, outm, mx = vlib.ocaml_build("cursor", "mx_cursor")
-    okh, outh, (hxbin,) = vlib.cargo_build(["c11"])
+    okh, outh, (hxbin, hxf) = vlib.cargo_build(["c11", "c11f"])
+    okxf, outxf = vlib.coq_make(["theories/Cursor/FExtract.vo"])
+    okmf, outmf, mxf = vlib.ocaml_build("cursor", "mx_fcursor")
+    if not (okxf and okmf):
+        raise RuntimeError("fallible model build failed:\n" + outxf[-1500:] + outmf[-1500:])
     if not (okx and okm):
         raise RuntimeError("model build failed:\n" + outx[-1500:] + outm[-1500:])
     if not okh:
@@ -200,9 +282,90 @@ def run(chk):
         run_batch(chk, hxbin, mx, batch, tally, "exh")
     samples.append(G.fmt_expr(fams[0]) + " | " + G.fmt_prog(progs[-1]))
 
+    # ---- storage errors: leaves that return Err on schedule
+    ft = {"n": 0, "errs": 0, "with_err": 0, "continued_after_err": 0, "known": 0, "known_example": None,
+          "recovered": 0, "unhealthy": 0, "prop_bad": [], "corr_bad": []}
+    frng = vlib.Rng(chk.seed * 1000003 + 1111)
+    fstats = G.new_stats()
+    nf = 8000 if chk.tier == "quick" else 200000
+    fcases = []
+    for line, x, prog, tag in load_fcorpus():
+        fcases.append((line, x, prog, tag))
+    for k in range(nf):
+        x, prog = G.gen_case(frng, fstats, top=tops[k % len(tops)])
+        fx = G.add_failures(frng, x, fstats)
+        fcases.append((G.fmt_expr(fx) + " | " + G.fmt_prog(prog), fx, prog, "fgen%d" % k))
+        if k == 1:
+            samples.append(fcases[-1][0][:600])
+        if len(fcases) >= 50000:
+            run_fbatch(chk, hxf, mxf, fcases, ft)
+            fcases = []
+    # ---- the nestings lsmtk builds over real SstCursors: compaction input (K) and GC cursor (G)
+    nk = 600 if chk.tier == "quick" else 20000
+    kcases, kstat = [], {"K": 0, "G": 0, "walks": 0}
+    for k in range(nk):
+        es, pool = G.gen_entries(frng, fstats)
+        if not es:
+            continue
+        ntab = frng.choice([2, 2, 3, 3, 4, 6])
+        tabs = [t for t in G.split_scatter(frng, es, ntab) if t and not (t[0][0] == b"" and t[0][1] == G.U64)]
+        if not tabs:
+            continue
+        sp = sorted((e for t in tabs for e in t), key=G.kref)
+        kind = "K" if k % 2 == 0 else "G"
+        if frng.chance(1, 2):
+            prog = (["F"] if kind == "K" else []) + ["N"] * (len(sp) + 2)      # the walk compaction / the collector do
+            kstat["walks"] += 1
+        else:
+            prog = G.gen_prog(frng, pool, sp, fstats, 20)
+        line = " ".join([kind, str(len(tabs))] + [" ".join([str(len(t))] + [G.fmt_entry(e) for e in t]) for t in tabs]) + " | " + G.fmt_prog(prog)
+        exp = G.ref_run(sp, prog) if kind == "K" else " ".join(G.ref_run(sp, ["F", "N"] + prog).split()[2:])
+        kcases.append((line, exp, kind))
+        kstat[kind] += 1
+    if kcases:
+        rc1, kio = run_lines(hxf, [c[0] for c in kcases], chk.work, "kimpl")
+        rc2, kmo = run_lines(mxf, [c[0] for c in kcases], chk.work, "kmodel")
+        if len(kio) != len(kcases) or len(kmo) != len(kcases):
+            raise RuntimeError("nestings: output line count mismatch")
+        for (line, exp, kind), io, mo in zip(kcases, kio, kmo):
+            mm, _, ms = mo.partition(" # ")
+            rec = {"tag": "nesting:" + kind, "case": line, "impl_out": io, "model_out": mm, "coq_spec_out": ms, "spec_out": exp}
+            if io != exp:
+                ft["prop_bad"].append(rec)
+            elif io != mm or mm != ms:
+                ft["corr_bad"].append(rec)
+        samples.append(kcases[0][0][:400])
+    ft["n"] += len(kcases)
+    ft["nestings"] = kstat
+
+    # exhaustive: every single failure point of every leaf, on small families, short programs
+    fprogs = all_programs(3 if chk.tier == "quick" else 4)
+    for fi, x in enumerate(failing_families()):
+        for fx in G.single_failure_variants(x, 9 if chk.tier == "quick" else 14):
+            ex = G.fmt_expr(fx)
+            for prog in fprogs:
+                fcases.append((ex + " | " + G.fmt_prog(prog), fx, prog, "fexh%d" % fi))
+            if len(fcases) >= 50000:
+                run_fbatch(chk, hxf, mxf, fcases, ft)
+                fcases = []
+    run_fbatch(chk, hxf, mxf, fcases, ft)
+
     prop_bad, corr_bad, model_spec_bad = tally.prop_bad, tally.corr_bad, tally.model_spec_bad
+    prop_bad = prop_bad + ft["prop_bad"]
+    corr_bad = corr_bad + ft["corr_bad"]
+    if ft["known"]:
+        ex = ft["known_example"]
+        chk.known("dirty-relative", "after a child returned Err, next/prev before the next successful seek*/seek_to_first/seek_to_last are unspecified (e.g. `%s` -> `%s`)" % (ex["case"][:160], ex["impl_out"][:120]))
+        for _ in range(ft["known"] - 1):
+            chk.known("dirty-relative", "")
     chk.coverage.update({
-        "evaluations": tally.n, "distinct_nontrivial": len(tally.distinct),
+        "evaluations": tally.n + ft["n"], "distinct_nontrivial": len(tally.distinct),
+        "storage_errors": {"cases": ft["n"], "cases_with_err": ft["with_err"], "err_returns": ft["errs"],
+                           "cases_continued_after_err": ft["continued_after_err"],
+                           "absolute_calls_checked_after_an_err": ft["recovered"],
+                           "cases_in_known_class_dirty_relative": ft["known"], "model_unhealthy": ft["unhealthy"],
+                           "lsmtk_nestings_over_real_SstCursors": ft.get("nestings"),
+                           "rule": "the same generator with 2/3 of the table leaves replaced by a cursor over the same table whose calls number n1,n2,.. (1-3 numbers in 1..4/8/16/30) return Err without moving it, and 1/2 of the lazy leaves by one whose opens fail on schedule; the run continues after an Err; compared: implementation vs fallible model at EVERY position, and both vs the specification of a run with errors (everything before the first Err, every successful seek*/first/last after an Err and everything after it); plus every single failure point (call 1..9/14 of each leaf) on %d small families x all programs up to length %d" % (len(failing_families()), 3 if chk.tier == "quick" else 4)},
         "rule": "cursor expressions (T table / L lazy-over-real-SST / M merging / C concat / B bounds / P pruning, nested to depth <= 3, top kind cycled over M,C,B,P,L,any) over a strictly sorted entry family from one SplitMix64 seed (key pools with shared prefixes, empty key, 0x00/0xff bytes; 1-5 versions per key from timestamps 0..9, u64::MAX-1, u64::MAX; 1/4 tombstones, 1/12 tombstone-only, 1/10 empty family; children of C are contiguous segments incl. empty ones and cuts inside a key's versions; children of M are scattered subsets incl. by timestamp parity and tombstones gathered in one table) and programs of 1-40 calls (five mixes: forward, backward, zig-zag with a reversal at almost every step, uniform; seek keys drawn from the entries, the pool, pool key + 0x00/0x01/0xff, empty key)"
                 + "; plus ALL programs of length <= %d over {first,last,next,prev,seek a,seek b,seek bb} on %d fixed small families (shared keys across tables, tombstone-only and empty tables, a key split across adjacent tables, 42 bound combinations incl. empty and inverted, 9 pruning thresholds, lazy, one scan-shaped nesting)%s: exhaustive within that scope" % (maxlen, len(fams), (", %d of them up to length 6" % len(deep) if deep else ""))
                 + "; non-trivial = at least 3 calls and at least one non-None observation; distinct = distinct case lines (by hash)",
@@ -211,7 +374,7 @@ def run(chk):
         "exhaustive": False,
         "exhaustive_small_scope_cases": nexh,
         "correspondence": "impl (Rust, release + overflow-checks + debug-assertions) vs extracted Coq model (Compose.run_model) vs Coq spec (Compose.run_spec) vs independent Python spec, 4-way",
-        "disagreements_impl_vs_spec": tally.nbad[0], "disagreements_impl_vs_model": tally.nbad[1],
+        "disagreements_impl_vs_spec": tally.nbad[0] + len(ft["prop_bad"]), "disagreements_impl_vs_model": tally.nbad[1] + len(ft["corr_bad"]),
         "disagreements_model_vs_spec": tally.nbad[2],
         "trusted_base": [
             "Coq 8.16.1 kernel (coqc, full .vo build)",
@@ -247,7 +410,11 @@ def replay(path):
     print(json.dumps(obj, indent=1)[:4000])
     case = obj.get("case")
     if case:
-        okh, outh, (hxbin,) = vlib.cargo_build(["c11"])
+        okh, outh, (hxbin, hxf) = vlib.cargo_build(["c11", "c11f"])
+    okxf, outxf = vlib.coq_make(["theories/Cursor/FExtract.vo"])
+    okmf, outmf, mxf = vlib.ocaml_build("cursor", "mx_fcursor")
+    if not (okxf and okmf):
+        raise RuntimeError("fallible model build failed:\n" + outxf[-1500:] + outmf[-1500:])
         rc, out = vlib.sh([hxbin], stdin=(case["case"] + "\n").encode())
         print("impl now :", out.strip())
         print("spec     :", case["spec_out"])
